@@ -2771,3 +2771,10 @@ def q_c13_heads_news(bodies):
 
 
 QUERIES["C13"] = QUERIES["C13"] + [q_c13_heads_encode, q_c13_heads_news]
+
+
+# ------------------------------------------------------------------------------------------------
+# C05: QueryIterator::next driven over a modelled range (Exec2: inlining, addresses, model forks)
+# ------------------------------------------------------------------------------------------------
+from queries_c05 import QUERIES_C05  # noqa: E402
+QUERIES["C05"] = QUERIES.get("C05", []) + QUERIES_C05
